@@ -599,6 +599,38 @@ func ruleC03R8(w *World, r *Report) {
 			return true, ""
 		case *ssa.Convert:
 			return nonNeg(x.X, at, seen)
+		case *ssa.Parameter:
+			// a count handed down to an excerpt helper: judged at every call of the helper
+			fn := x.Parent()
+			idx := -1
+			for i, p := range fn.Params {
+				if p == x {
+					idx = i
+				}
+			}
+			n := 0
+			why := ""
+			for _, site := range w.callersOf(fn) {
+				if site.Parent() == nil || site.Parent().Synthetic != "" || !corePkg(fnPkgPath(site.Parent())) {
+					continue
+				}
+				args := site.Common().Args
+				if idx < 0 || idx >= len(args) {
+					return false, "value parameter " + x.String()
+				}
+				ok, wy := nonNeg(args[idx], site.Block(), seen)
+				if !ok {
+					return false, wy
+				}
+				if wy != "" {
+					why = wy
+				}
+				n++
+			}
+			if n > 0 {
+				return true, why
+			}
+			return false, "value parameter " + x.String()
 		case *ssa.BinOp:
 			if x.Op == token.ADD || x.Op == token.MUL {
 				okx, _ := nonNeg(x.X, at, seen)
